@@ -47,30 +47,6 @@ func boolStr(b bool) string {
 	return "false"
 }
 
-func writesVarAfterDef(c *Ctx, fd *ast.FuncDecl, v types.Object) bool {
-	n := 0
-	ast.Inspect(fd.Body, func(m ast.Node) bool {
-		switch x := m.(type) {
-		case *ast.AssignStmt:
-			for _, l := range x.Lhs {
-				if c.obj(l) == v {
-					n++
-				}
-			}
-		case *ast.IncDecStmt:
-			if c.obj(x.X) == v {
-				n++
-			}
-		case *ast.UnaryExpr:
-			if x.Op == token.AND && c.obj(x.X) == v {
-				n++
-			}
-		}
-		return true
-	})
-	return n > 1
-}
-
 // lenOfParam: t is len(param).
 func lenOfParam(t Term, par types.Object) bool {
 	b, ok := t.(TBuiltin)
